@@ -9,9 +9,9 @@ import random
 import sys
 
 OUTCOMES = ['done', 'failupd', 'failnone', 'raise', 'none', 'notpair', 'badstatus',
-            'badupdate', 'waitstatus', 'intstatus']
+            'badupdate', 'waitstatus', 'intstatus', 'donenone']
 # model view of an outcome: (has_upd, ok)
-OUTCOME_MODEL = {'done': (True, True), 'failupd': (True, False), 'intstatus': (True, True), 'nested': (True, True)}
+OUTCOME_MODEL = {'done': (True, True), 'failupd': (True, False), 'intstatus': (True, True), 'nested': (True, True), 'donenone': (False, True)}
 
 STATUS_NAMES = {1: 'WAITING', 2: 'PENDING', 3: 'DONE', 4: 'FAILED', 5: 'SKIPPED'}
 
@@ -163,6 +163,8 @@ class World:
                     return upd, TaskStatus.FAILED
                 if kind == 'failnone':
                     return None, TaskStatus.FAILED
+                if kind == 'donenone':
+                    return None, TaskStatus.DONE
                 if kind == 'raise':
                     if var % 6 == 4:
                         raise BadStr()
